@@ -31,6 +31,9 @@ void vf_run_case(vf::Ctx& ctx, long idx)
     // A with well separated smallest eigenvalues (prescribed), positive definite
     Eigen::VectorXd lam(n);
     for (int i = 0; i < n; i++) lam[i] = i < 2 * k + 2 ? 1.0 + 0.7 * i + 0.1 * r.uni() : 1.0 + 0.7 * (2 * k + 2) + 5.0 * r.uni() + 0.05 * i;
+    // symmetric, not necessarily definite: in 40 % of the cases the spectrum is moved so that some of the wanted (smallest) eigenvalues are negative
+    const bool indefinite = r.coin(0.4);
+    if (indefinite) { const double sh = lam[(int) r.range(0, k)] + 0.35; for (int i = 0; i < n; i++) lam[i] -= sh; }
     MatXd Q = vg::rand_orth(r, n);
     MatXd A = Q * lam.asDiagonal() * Q.transpose();
     for (int j = 0; j < n; j++) for (int i = 0; i < j; i++) A(i, j) = A(j, i);
@@ -51,13 +54,13 @@ void vf_run_case(vf::Ctx& ctx, long idx)
     Sp As = A.sparseView(), Bs = B.sparseView();
     MatXd X0 = vg::rand_gauss(r, n, k);
     Sp X0s = X0.sparseView();
-    auto info = [&]() { return vf::J().kv("n", n).kv("block_size", k).kv("with_B", withB).kv("with_preconditioner", withP).kv("tol_div_n", (double) tol).kv("maxit", maxit).kv("cond_B", (double) kB); };
+    auto info = [&]() { return vf::J().kv("n", n).kv("block_size", k).kv("with_B", withB).kv("with_preconditioner", withP).kv("tol_div_n", (double) tol).kv("maxit", maxit).kv("cond_B", (double) kB).kv("indefinite_A", indefinite); };
     Spectra::LOBPCGSolver<T> solver(As, X0s);
     if (withB) solver.setB(Bs);
     if (withP)
     {
         Sp P(n, n);
-        for (int i = 0; i < n; i++) P.insert(i, i) = 1.0 / A(i, i);
+        for (int i = 0; i < n; i++) P.insert(i, i) = 1.0 / std::max(std::abs(A(i, i)), 0.1);   // positive (the indefinite case has diagonal entries of either sign)
         solver.setPreconditioner(P);
     }
     std::string outcome = "ok";
@@ -67,6 +70,7 @@ void vf_run_case(vf::Ctx& ctx, long idx)
     ctx.count("evals");
     ctx.count("block_size/" + std::string(k == 1 ? "1" : (k >= 10 ? ">=10" : "2..9")));
     ctx.count(std::string(withB ? "pencil" : "standard") + (withP ? "+preconditioner" : ""));
+    ctx.count(indefinite ? "spectrum/indefinite" : "spectrum/positive");
     if (outcome != "ok") { ctx.count("outcome/" + outcome); ctx.nontriv("exc/" + std::to_string(idx)); if (ctx.want_sample) ctx.set_sample(info().kv("outcome", outcome).str()); return; }   // the exception is "no success reported"
     const bool success = solver.info() == Eigen::Success;
     ctx.count(success ? "outcome/Success" : "outcome/no-success-reported");
